@@ -282,6 +282,22 @@ Fixpoint renum_step (x : id) (a st : Z) (cnt : nat) : M unit :=
       end
   end.
 
+(* Node._detach_removed (repair of the round-2 finding): a replaced child that is not among the new values and still
+   records this node as its parent forgets it (empty weak reference, parent_index None) *)
+Definition detach_removed (x : id) (removed vals : list id) : M unit :=
+  miter (fun c => if existsb (Nat.eqb c) vals then ret tt
+                  else nc <- getn c ;;
+                       match parent nc with
+                       | Some p => if Nat.eqb p x then modn c (fun n => set_pidx None (set_parent None n)) else ret tt
+                       | None => ret tt
+                       end) removed.
+(* the elements an extended slice s, s+st, ... (cnt of them) addresses: list.__getitem__(slice) *)
+Fixpoint pick_ext {A} (l : list A) (s st : Z) (cnt : nat) : list A :=
+  match cnt with
+  | O => []
+  | S c => match nth_error l (Z.to_nat s) with Some a => a :: pick_ext l (s + st) st c | None => pick_ext l (s + st) st c end
+  end.
+
 (* Node.__setitem__, slice branch; `vals` are ids of existing nodes (parse_child only re-parents them) *)
 Definition node_setitem_slice (x : id) (start stop step : option Z) (vals : list id) : M unit :=
   miter (fun c => modn c (set_parent (Some x))) vals ;;;
@@ -293,15 +309,18 @@ Definition node_setitem_slice (x : id) (start stop step : option Z) (vals : list
   | Some (s, e, st) =>
       let rl := range_len s e st in
       let k := Z.of_nat (length vals) in
+      let removed := if st =? 1 then firstn (Z.to_nat (Z.max s e) - Z.to_nat s) (skipn (Z.to_nat s) cs)
+                     else pick_ext cs s st (Z.to_nat rl) in
       (if st =? 1
        then modn x (set_children (firstn (Z.to_nat s) cs ++ vals ++ skipn (Z.to_nat (Z.max s e)) cs))
        else if k =? rl then modn x (set_children (assign_ext cs s st vals)) else raise ExValue) ;;;
-      if negb (k =? rl)
-      then (let first := if 0 <? st then s else e in
-            n' <- getn x ;;
-            renum x first (Z.to_nat (Z.of_nat (length (children n')) - first)))
-      else if 0 <? k then renum_step x s st (Z.to_nat rl)
-      else ret tt
+      (if negb (k =? rl)
+       then (let first := if 0 <? st then s else e in
+             n' <- getn x ;;
+             renum x first (Z.to_nat (Z.of_nat (length (children n')) - first)))
+       else if 0 <? k then renum_step x s st (Z.to_nat rl)
+       else ret tt) ;;;
+      detach_removed x removed vals
   end.
 (* Node.__setitem__, integer branch *)
 Definition node_setitem_int (x : id) (idx : Z) (v : id) : M unit :=
@@ -311,7 +330,8 @@ Definition node_setitem_int (x : id) (idx : Z) (v : id) : M unit :=
   modn v (set_pidx (Some (if idx <? 0 then idx + len else idx))) ;;;
   match py_index len idx with
   | None => raise ExIndex
-  | Some i => modn x (set_children (set_nth (children n) (Z.to_nat i) v))
+  | Some i => modn x (set_children (set_nth (children n) (Z.to_nat i) v)) ;;;
+              detach_removed x (match nth_error (children n) (Z.to_nat i) with Some o => [o] | None => [] end) [v]
   end.
 (* Loop.__setitem__ *)
 Definition loop_setitem_slice (x : id) (start stop step : option Z) (vals : list id) : M unit :=
@@ -721,3 +741,34 @@ Definition init_state (t : tspec) : state :=
   end.
 
 Definition run (s : state) (ops : list op) : state := fold_left (fun s o => fst (step s o)) ops s.
+
+(* ---- round 2: references the user holds into the tree; editing a node after it dropped out of the tree ------------------ *)
+Fixpoint nodes (fuel : nat) (h : heap) (x : id) : list id :=
+  match fuel with
+  | O => []
+  | S f => match get h x with None => [] | Some n => x :: flat_map (nodes f h) (children n) end
+  end.
+Definition in_tree (h : heap) (r y : id) : bool := existsb (Nat.eqb y) (nodes (S (S (length h))) h r).
+
+Record fstate := mkF { f_main : state; f_held : list id }.
+Inductive fop :=
+| FMain (o : op)                 (* an operation on the program, addressed by path from its root *)
+| FHold (p : path)               (* ref = the node at path p (the user keeps the reference) *)
+| FAt (k : nat) (o : op).        (* an operation addressed by path from the k-th held node, when that node is no longer in the program *)
+Definition fstep (fs : fstate) (o : fop) : fstate * outcome :=
+  match o with
+  | FMain o' => let '(s', out) := step (f_main fs) o' in (mkF s' (f_held fs), out)
+  | FHold p => match resolve (st_heap (f_main fs)) (st_root (f_main fs)) p with
+               | Some x => (mkF (f_main fs) (f_held fs ++ [x]), Done)
+               | None => (fs, BadPath)
+               end
+  | FAt k o' =>
+      let s := f_main fs in
+      match nth_error (f_held fs) k with
+      | None => (fs, BadPath)
+      | Some m => if in_tree (st_heap s) (st_root s) m then (fs, BadPath)
+                  else let '(s', out) := step (mkState (st_heap s) m (st_vctr s)) o' in
+                       (mkF (mkState (st_heap s') (st_root s) (st_vctr s')) (f_held fs), out)
+      end
+  end.
+Definition frun (fs : fstate) (ops : list fop) : fstate := fold_left (fun s o => fst (fstep s o)) ops fs.
